@@ -1329,6 +1329,22 @@ def rt_c05(tier="quick", first_only=False, count=None):
                 fails.append(dict(what=f"VmapMixture after an update of every trainable leaf: log_prob({xx}) = {float(mix.log_prob(xx))!r}; weight-normalised sum of its component densities gives {want!r} (weights sum to {float(np.exp(lw).sum())!r})", case=dict(family="VmapMixture(trained)", seed=seed)))
                 if first_only:
                     return fails
+    # the mixture SAMPLER draws from the mixture law: Kolmogorov-Smirnov distance of 20000 fixed-seed draws to the mixture CDF, and
+    # the fraction of draws per component region (a key shared by the component choice and the draw correlates the two)
+    import jax.random as _jr
+    for fam, mk, cdf in (("Normal", lambda l, s_: Dm.Normal(l, s_), lambda l, s_: st.norm(l, s_).cdf), ("Laplace", lambda l, s_: Dm.Laplace(l, s_), lambda l, s_: st.laplace(l, s_).cdf),
+                         ("Gumbel", lambda l, s_: Dm.Gumbel(l, s_), lambda l, s_: st.gumbel_r(l, s_).cdf)):
+        n += 1
+        locs_, scs_, w_ = np.array([-1.0, 1.0, 2.0]), np.array([0.4, 0.6, 0.5]), np.array([1.0, 2.0, 1.0])
+        mixs = Dm.VmapMixture(eqx.filter_vmap(mk)(jnp.asarray(locs_), jnp.asarray(scs_)), w_)
+        xs = np.sort(np.asarray(mixs.sample(_jr.PRNGKey(11), (20000,)), float))
+        F_ = sum(w_[i] / w_.sum() * cdf(locs_[i], scs_[i])(xs) for i in range(3))
+        emp_hi, emp_lo = np.arange(1, len(xs) + 1) / len(xs), np.arange(0, len(xs)) / len(xs)
+        D = float(max(np.max(emp_hi - F_), np.max(F_ - emp_lo)))
+        if D > 0.02:  # the 1e-6 quantile of the KS statistic at n = 20000 is 0.0186
+            fails.append(dict(what=f"VmapMixture of {fam} components (locs {locs_.tolist()}, weights {w_.tolist()}): Kolmogorov-Smirnov distance of 20000 draws (PRNGKey(11)) to the mixture CDF is {D:.4f} (> 0.02): the sampler does not draw from the mixture", case=dict(family=f"VmapMixture({fam}) sampler")))
+            if first_only:
+                return fails
     umix = Dm.VmapMixture(eqx.filter_vmap(Dm.Uniform)(jnp.array([0.0, 2.0]), jnp.array([1.0, 3.0])), np.array([1.0, 1.0]))
     n += 1
     v = float(umix.log_prob(5.0))
